@@ -1573,6 +1573,9 @@ def r48_year_parts(ctx):
         elif isinstance(v, ast.BinOp) and isinstance(v.op, ast.Mult) and \
                 U(v.right) in ("-1", "(-1)"):
             v = v.left
+        elif isinstance(v, ast.BinOp) and isinstance(v.op, ast.Mult) and \
+                U(v.left) in ("-1", "(-1)"):
+            v = v.right
         for t in _sum_terms(v):
             k = 1
             body = t
